@@ -86,6 +86,7 @@ def install(eng):
     M[("set", "discard")] = m_set_discard
     M[("set", "remove")] = m_set_remove
     M[("str", "format")] = lambda e, st, r, a, k, n: SV(KStr, st.fresh("fmt", z3.StringSort()))
+    M[("val", "append")] = lambda e, st, r, a, k, n: m_list_append(e, st, e.coerce(st, r, KList(KVal), n), a, k, n)
     M[("val", "get")] = m_val_get
     M[("val", "items")] = m_val_items
     M[("ref", "total_seconds")] = lambda e, st, r, a, k, n: SV(KFloat, f_fin(st.fresh("seconds", z3.RealSort())))
@@ -216,6 +217,10 @@ def _isinst(eng, st, v, cls):
             if issubclass(real, cls):
                 return v.term != 0
             if not issubclass(cls, real):
+                import inspect as _i
+                if _i.isabstract(cls) or _i.isabstract(real) or cls.__name__.startswith("Base"):
+                    # unrelated abstract bases (mixins): decided by the object's dynamic class
+                    return z3.And(v.term != 0, uf("dyn_isinstance_" + cls.__name__, z3.IntSort(), z3.BoolSort())(v.term))
                 return Fa
             # downcast test: dynamic class of the object (ghost class tag)
             return z3.And(v.term != 0, eng.dyn_isinstance(st, v, cls))
